@@ -927,6 +927,9 @@ impl<'a, F: Float, K: 'a + Permutable<F>> SolverState<'a, F, K> {
 #[cfg(linfa_verif)]
 #[path = "verif_hooks_c13.rs"]
 pub mod verif_hooks_c13;
+#[cfg(linfa_verif)]
+#[path = "verif_hooks_c13g.rs"]
+pub mod verif_hooks_c13g;
 
 #[cfg(test)]
 mod tests {
